@@ -11,7 +11,7 @@ EXTENDS Integers, Sequences, FiniteSets, TLC, Json, SequencesExt
 CONSTANTS GOps, GBurst, GIso
 
 Pools == {<<1, 2>>, <<2, 3>>, <<1, 3>>, <<2, 4>>}
-Fails == {"", "boom", "cond", "nilstag"}
+Fails == {"", "boom", "cond", "nilstag", "concboom"}
 Capacity ==
   {[min |-> p[1], max |-> p[2], fails |-> f] :
       p \in Pools, f \in UNION {[1..k -> Fails] : k \in 1..GBurst}}
